@@ -22,7 +22,7 @@ REQUIRED_THEOREMS = ['abs_date', 'abs_date_reference_independent', 'two_digit_ye
                      'month_map_en', 'day_map_en', 'english_month_names',
                      'month_map_es', 'month_map_esmx', 'month_map_fr', 'month_map_pt', 'month_map_it', 'month_map_de',
                      'month_map_nl', 'day_map_es', 'day_map_esmx', 'day_map_fr', 'day_map_pt', 'day_map_it',
-                     'day_map_de', 'day_map_nl', 'numeric_keys_zh']
+                     'day_map_de', 'day_map_nl', 'numeric_keys_zh', 'abs_date_zh', 'zh_tables']
 RULE = ('unit: format_date/luis_date on all 73,049 dates 1900..2099 + out-of-range years; generate_dates on a grid '
         '(years incl. 1,4,100,1900,2000,2100,9999 x months 0..13 x days 0,1,28..32 x no_year x references); match_to_date on '
         'every match of every date regex of the 8 BaseDateParser cultures over strings built from the contract layouts, '
@@ -34,7 +34,10 @@ RULE = ('unit: format_date/luis_date on all 73,049 dates 1900..2099 + out-of-ran
         'does not fit 20 min at the measured 110-450 date queries/s); non-trivial = distinct query that produced the date')
 ASSUMPTIONS = ['group values are inputs of the model, the regex engine and the extractors are not modelled (pipeline level only)',
                'get_year_from_text (written-out years) enters the model as a parameter',
-               'ChineseDateParser is not modelled (pipeline level only)',
+               'ChineseDateParser.match_to_date is modelled (unit correspondence on ~6k real matches); its 汉字-year conversion '
+               '(convert_chinese_year_to_number, which runs the number recogniser) is an input of the model',
+               'two-digit years are outside the property (it speaks of fully specified years 1900-2099; the contract has four-digit '
+               'layouts only): the gap 30..39 -> year 00YY is proved (two_digit_year_gap / _witness) and replayed as an observation',
                'datedelta is not involved in absolute dates']
 
 CONTRACT = os.path.join(common.VERIF, 'contracts', 'C06.json')
@@ -211,6 +214,66 @@ def unit_match_to_date(ctx, T, contract):
                                'groups': groups, 'reference': str(ref), 'implementation': a, 'model': mo})
     ctx.extra['match_to_date_calls_per_culture'] = per
     ctx.sample({'op': lines[len(lines) // 2], 'implementation': impl[len(lines) // 2]})
+
+
+def unit_match_to_date_zh(ctx, T, contract):
+    """ChineseDateParser.match_to_date on real matches of its date regexes; the 汉字-year conversion
+    (convert_chinese_year_to_number, which runs the number recogniser) enters the model as the value the real method
+    returns for the captured `yearchs` group."""
+    dp = T.date_parser('zh-cn')
+    g = T.RegExpUtility.get_group
+    C = T.Constants
+    refs = [datetime.datetime(*REFS[2]), datetime.datetime(*REFS[3]), datetime.datetime(2019, 3, 5, 0, 0, 0)]
+    strings = []
+    han_m = ['一', '二', '三', '四', '五', '六', '七', '八', '九', '十', '十一', '十二', '正', '腊']
+    han_d = ['一', '二', '五', '十', '十五', '二十', '二十九', '三十', '三十一']
+    for y in ('2019', '19', '29', '30', '45', '99', '00', '二零一九', '二〇二〇', '一九八七', '两千零五', ''):
+        ys = (y + '年') if y else ''
+        for m in ['1', '3', '03', '12', '13'] + han_m[:4] + han_m[9:]:
+            for d in ['1', '5', '05', '29', '30', '31', '32'] + han_d:
+                for suf in ('日', '号', ''):
+                    strings.append('%s%s月%s%s' % (ys, m, d, suf))
+    for y, m, d in ((2019, 3, 5), (2000, 2, 29), (2019, 2, 30), (1900, 1, 1), (2099, 12, 31), (30, 3, 5), (2019, 13, 1)):
+        for t in ('%d-%02d-%02d', '%d/%d/%d', '%d.%d.%d', '%d-%d-%d'):
+            strings.append(t % (y, m, d))
+        strings.append('%d/%d/%d' % (m, d, y))
+        strings.append('%d-%d-%d' % (d, m, y))
+    lines, impl, meta = [], [], []
+    seen = set()
+    for s in strings:
+        for i, pat in enumerate(dp.config.date_regex):
+            m = T.regex.search(pat, s)
+            if m is None:
+                continue
+            y, ychs, mo, d = g(m, 'year'), g(m, C.YEAR_CJK_GROUP_NAME), g(m, 'month'), g(m, 'day')
+            key = (y, ychs, mo, d)
+            if key in seen:
+                continue
+            seen.add(key)
+            try:
+                cy = dp.convert_chinese_year_to_number(ychs)
+            except Exception:
+                continue
+            ref = refs[len(seen) % len(refs)]
+            try:
+                a = dtres.res_str(dp.match_to_date(m, ref))
+            except Exception as e:
+                a = dtres.err_kind(e)
+            lines.append('\t'.join(['dt.m2dzh', dtres.dt_field(ref), cps(y), '-', cps(mo), cps(d), str(cy)]))
+            impl.append(a)
+            meta.append((m.group(), 'date_regex#%d' % i, {'year': y, 'yearchs': ychs, 'month': mo, 'day': d, 'chsYear': cy}, ref))
+    model = common.driver(lines)
+    ctx.count('match_to_date(zh)', len(lines))
+    for (text, name, groups, ref), l, a, mo in zip(meta, lines, impl, model):
+        if a.startswith('1|') and not a.endswith('1,1,1,0,0,0|1,1,1,0,0,0'):
+            ctx.nontriv(('m2dzh', tuple(sorted(groups.items()))))
+        if a != mo:
+            dtres.report(ctx, 'correspondence', 'match_to_date-zh', 'ChineseDateParser.match_to_date on %r (%s) groups %r: implementation %s, model %s' % (
+                text, name, groups, a, mo),
+                failing_input={'op': l, 'matched_text': text, 'regex': name, 'groups': groups, 'reference': str(ref),
+                               'implementation': a, 'model': mo})
+    if lines:
+        ctx.sample({'op': lines[len(lines) // 2], 'implementation': impl[len(lines) // 2]})
 
 
 def unit_resolution(ctx, T):
@@ -435,6 +498,7 @@ def correspond(ctx):
     unit_format(ctx, T)
     unit_generate_dates(ctx, T)
     unit_match_to_date(ctx, T, contract)
+    unit_match_to_date_zh(ctx, T, contract)
     unit_resolution(ctx, T)
     replay_witnesses(ctx, T)
     pipeline(ctx, contract)
